@@ -64,6 +64,10 @@ def gen_common_spacing_cfgs(rng, n, kind, gap):
         out = [full[0]] + [full[i] for i in keep] + [full[-1]]
         # make sure the smallest difference is the gap itself (the reader of the property: "common spacing")
         return out
+    if kind == "bursts":
+        # short bursts of measurements separated by long pauses: some lags below the summation window have no pair at all
+        m, period = rng.choice([2, 3]), rng.choice([8, 10, 12])
+        return [start + gap * (period * (i // m) + i % m) for i in range(n)]
     raise ValueError(kind)
 
 
@@ -76,7 +80,7 @@ def make_ens_obs(pe, rng, ens, nrep, nmin, nmax, kinds):
     twin = None
     for nm in names:
         n = rng.randint(nmin, nmax)
-        k = rng.choice(["contiguous", "contiguous", "strided", "gapped", "gapped"])
+        k = rng.choice(["contiguous", "contiguous", "strided", "gapped", "gapped", "bursts"])
         c = gen_common_spacing_cfgs(rng, n, k, gap)
         if twin is not None and rng.random() < 0.5 and len(twin) > 8:
             # a second stream with the same first / last configuration and the same number of measurements, holes elsewhere
